@@ -31,12 +31,19 @@ BODIES = [
     ('sa{sv}', lambda t: [t, [('k', Variant('q', 9)), ('l', Variant('s', 'w'))]]),
     ('s(iy)ad', lambda t: [t, [-5, 200], [1.5, -0.0]]),
     ('sx', lambda t: [t, -2**63]),
+    ('ss', lambda t: [t, 'x']),
+    ('ss', lambda t: [t, 'xy']),
+    ('ss', lambda t: [t, '/a/b']),
+    ('sss', lambda t: [t, '/a/', 'x']),
+    ('si', lambda t: [t, 7]),
 ]
 
 RULES = [
     {}, {'type': 'signal'}, {'interface': 'a.b'}, {'member': 'M'}, {'path': '/a/b'}, {'path_namespace': '/a'},
     {'type': 'signal', 'interface': 'a.b', 'member': 'M'}, {'path_namespace': '/a/b'}, {'type': 'method_call'},
     {'interface': 'a.bc', 'path': '/a/bc'}, {'args': {0: 'nope'}}, {'type': 'error'},
+    {'args': {1: 'x'}}, {'type': 'signal', 'args': {1: 'x', 2: 'x'}}, {'arg_paths': {1: '/a/'}}, {'arg_paths': {1: '/a/b'}},
+    {'member': 'M', 'args': {1: 'xy'}}, {'arg_paths': {1: '/a/b/c'}},
 ]
 
 
@@ -47,6 +54,8 @@ def rule_text(rule):
             parts.append("%s='%s'" % (k, rule[k]))
     for i, v in (rule.get('args') or {}).items():
         parts.append("arg%d='%s'" % (i, v))
+    for i, v in (rule.get('arg_paths') or {}).items():
+        parts.append("arg%dpath='%s'" % (i, v))
     return ','.join(parts)
 
 
